@@ -7,8 +7,8 @@ pkg=$1; commit=$2; replay=$(realpath "$3")
 out=/dev/shm/vfi-$$; mkdir -p $out; chmod 777 $out
 [ -z "$(git -C /repo status --porcelain)" ] || { echo "/repo not clean"; exit 2; }
 run() {
-  (cd /verif/harness && go test -c -tags verif -o $out/t.test ./props/$pkg) || return 2
-  (cd /verif/harness/props/$pkg && VERIF_IGNORE_KF=1 VERIF_ROOT=/verif VERIF_OUT=$out VERIF_REPLAY=$replay $out/t.test -test.run '^TestReplay$' -test.count=1 >$out/log 2>&1)
+  (cd ${VERIF_DIR:-/verif}/harness && go test -c -tags verif -o $out/t.test ./props/$pkg) || return 2
+  (cd ${VERIF_DIR:-/verif}/harness/props/$pkg && VERIF_IGNORE_KF=1 VERIF_ROOT=${VERIF_DIR:-/verif} VERIF_OUT=$out VERIF_REPLAY=$replay $out/t.test -test.run '^TestReplay$' -test.count=1 >$out/log 2>&1)
   echo "$1 rc=$?"; grep -a -m1 "fails:" $out/log | sed 's/.*fails: //' | cut -c1-${WIDTH:-400}
 }
 git -C /repo revert --no-commit $commit >/dev/null 2>&1 || { echo "cannot revert $commit cleanly"; git -C /repo revert --abort 2>/dev/null; git -C /repo reset -q --hard; exit 2; }
